@@ -168,7 +168,7 @@ def solo(prog, k, base_seed):
 
 def _job(args):
     seed, i, schedule = args
-    prog = btgen.prog_by_family(seed, i, ["lookback", "lookback", "flat", "nested", "closeroll", "replay"])
+    prog = btgen.prog_by_family(seed, i, ["lookback", "lookback", "flat", "nested", "closeroll", "closeroll", "replay"])
     try:
         ses = play(prog, schedule, 1000 + i)
         ses["solo"] = solo(prog, ses["k"], 1000 + i)
@@ -216,7 +216,7 @@ def other_seed_results(seed, i, schedule, hashseed):
     """The same session in a fresh interpreter with another hash seed."""
     env = dict(os.environ, PYTHONHASHSEED=str(hashseed))
     code = ("import sys, json; sys.path.insert(0, %r); import check_c11 as c; import btgen; "
-            "prog = btgen.prog_by_family(%d, %d, ['lookback','lookback','flat','nested','closeroll','replay']); "
+            "prog = btgen.prog_by_family(%d, %d, ['lookback','lookback','flat','nested','closeroll','closeroll','replay']); "
             "print('RES', json.dumps(c.solo(prog, %d, %d)))" % (os.path.dirname(os.path.abspath(__file__)), seed, i, max(b for _, b in schedule), 1000 + i))
     p = subprocess.run([sys.executable, "-c", code], env=env, capture_output=True, text=True, timeout=300)
     for line in p.stdout.splitlines():
@@ -238,20 +238,20 @@ def run(prop, tier, replay=None):
     rep.cov["exhaustive"] = complete
     sched = schedules_from_tlc(rep)
     rng = random.Random(seed)
-    nprog = 16 if tier == "quick" else 60
+    nprog = 24 if tier == "quick" else 80
     jobs = []
     for j in range(nprog):
         for s in sched:
             jobs.append((seed, j, s))
     if tier == "quick":
         rng.shuffle(jobs)
-        jobs = jobs[:64]
+        jobs = jobs[:96]
     if replay:
         p = json.load(open(replay))
         jobs = [(p["seed"], p["i"], [tuple(x) for x in p["schedule"]])]
     res = common.pool_map(_job, jobs, chunksize=2)
     # other hash seed: a few sessions in fresh interpreters
-    nhs = 16 if tier == "quick" else 120
+    nhs = 24 if tier == "quick" else 160
     others = {}
     import concurrent.futures as cf
 
